@@ -123,6 +123,16 @@ CHECKS = {
         design_ref="3 C12",
         technique="symbolic evaluation of the emitted SQL vs reference semantics, one z3 query per MERGE shape (cvc5 cross-check in thorough); evaluator validated against real DuckDB each run; replay on the real stack",
     ),
+    "C10": dict(
+        category="translation_validation",
+        text="Translation validation of the argument plumbing of the rewrites: real transforms run on parsed skeletons whose numeric leaves are "
+        "symbolic (REGEXP_SUBSTR position/occurrence/group, TO_DECIMAL family precision/scale, VALUES column count) under CrossHair; RANDOM's "
+        "seed formula and BIGINT scaling as binary64 SMT lemmas built from the text/tree the real transform emits; EQUAL_NULL's macro body as "
+        "a three-valued-logic SMT lemma; date parts, digest sizes, sampling methods and 13 constructs x 12 expression contexts through the "
+        "whole real transform pipeline.",
+        design_ref="3 C10",
+        technique="CrossHair (z3) on real transforms with symbolic AST leaves; z3 floating-point / 3VL queries over emitted expressions; replay on the real stack",
+    ),
 }
 
 NOT_YET = "not claimed yet: check not built in this round (see DESIGN.md 7 for the order of work)"
